@@ -3,6 +3,7 @@ import Cuke.Lemmas.SchedLts
 import Cuke.Props.C06
 import Cuke.Props.C05
 import Cuke.Lemmas.SchedConserve
+import Cuke.Lemmas.SchedSpin
 /-!
 # C04 — Every supplied scenario runs, nothing else runs, and the run always terminates
 Model: `Cuke.newEntries`, `Cuke.insertInitial`, `Cuke.getBatch`, `Cuke.isFinished` and the idle branch
@@ -275,6 +276,52 @@ theorem lts_total_attempts_bounded (c : SCfg) (hwf : WF c) (ls : List Label) (hc
 
 /-- non-vacuity: one scenario with a budget of 2: at most 3 attempts; the example run dispatches 2 -/
 example : (Cuke.SchedCount.dispatched Cuke.C05.rcfg Cuke.C05.rlog).length = 2 ∧ (allScens Cuke.C05.rcfg).length * (2 + 1) = 3 := by
+  decide +kernel
+
+/-! ## No spinning, over whole runs (Lemmas/SchedSpin.lean) -/
+open Cuke.SchedSpin in
+/-- **Every idle iteration hands control back.** In every log replayed without a disagreement, `execute` re-enters
+    its loop from the idle branch at most as often as the stream returned `Pending` while it sat there (`poll`
+    boundaries): between two idle iterations the executor — hence `join`, hence the parser side and the sleeper —
+    got a turn. No bound on the length of the run. -/
+theorem lts_idle_iteration_needs_poll (c : SCfg) (ls : List Label) (hc : SchedOrd.Clean0 (accept c ls) = true) :
+    ls.countP isIdleContinue ≤ ls.countP isPoll := by
+  have h := (sinv_accept c ls hc).b
+  rw [count_eq] at h
+  exact Nat.le_trans (Nat.le_add_right _ _) h
+
+open Cuke.SchedSpin in
+/-- **Every consumed completion is an attempt that ended.** -/
+theorem lts_consumed_le_ended (c : SCfg) (ls : List Label) (hc : SchedOrd.Clean0 (accept c ls) = true) :
+    ls.countP isCons + (accept c ls).endedUnconsumed = ls.countP isEndA := by
+  have h := (sinv_accept c ls hc).c
+  rw [count_eq] at h
+  exact h
+
+open Cuke.SchedSpin in
+/-- **The loop cannot spin.** In every log replayed without a disagreement the number of loop iterations of `execute`
+    (returns of `features.get`) is at most `1 + polls + ended attempts`: every iteration beyond the first either
+    consumed the completion of an attempt, or went through the idle branch and suspended until the stream was polled
+    again. With `lts_total_attempts_bounded` (finitely many attempts) this is the termination argument in one line: the
+    work per poll is bounded, and only polls — turns of the executor in which the parser, a sleeper or user code made
+    progress — let the loop go round again. -/
+theorem lts_loop_iterations_bounded (c : SCfg) (ls : List Label) (hc : SchedOrd.Clean0 (accept c ls) = true) :
+    ls.countP isGet2 ≤ 1 + ls.countP isPoll + ls.countP isEndA := by
+  have hi := sinv_accept c ls hc
+  have ha := hi.a
+  have hb := hi.b
+  have hk := hi.c
+  rw [count_eq] at ha hb hk
+  have hs := slack_le_one (accept c ls).phase
+  simp only at ha hb hk
+  omega
+
+/-- non-vacuity: the accepted yield loop above has 2 iterations, 1 poll, 1 idle continue -/
+example :
+    let ls : List Label := [.pPend, .hookTake, .tx .started, .get1 1 (some 64) 0 0, .get2 2 (.cont (some 64)) [] false 0,
+      .idle false false, .idleYield, .poll, .idleContinue, .get1 3 (some 64) 0 0, .get2 4 (.cont (some 64)) [] false 0]
+    SchedOrd.Clean0 (accept spinCfg ls) = true ∧ ls.countP SchedSpin.isGet2 = 2 ∧ ls.countP SchedSpin.isPoll = 1 ∧
+      ls.countP SchedSpin.isIdleContinue = 1 := by
   decide +kernel
 
 end Cuke.C04
